@@ -300,12 +300,12 @@ def plan(tier):
             ([Config(l, z, 'XS') for l in langs], [('prng', 2)], 1, 4, False),
             ([Config(l, z, 'S') for l in langs], [('prng', 4)], 1, 8, False),
         ]
-    pol = ['first', 'last', 'alt'] + [('prng', c) for c in range(1, 9)]
     return [
-        ([Config(l, z, 'XS') for l in langs], pol, 1, 4, True),
-        ([Config(l, s, 'S') for l in langs for s in (z, (1, 1, 1, 1))], pol, 0, 1, True),
-        ([Config(l, z, 'S', o) for l in langs for o in ('asc', 'desc')], [('prng', c) for c in range(1, 5)], 1, 8, False),
-        ([Config(l, z, 'D') for l in langs], [('prng', c) for c in range(1, 5)], 0, 1, True),
+        ([Config(l, z, 'XS') for l in langs], ['first', 'alt'] + [('prng', c) for c in range(1, 9)], 0, 1, True),
+        ([Config(l, z, 'S') for l in langs], [('prng', 1), ('prng', 2)], 0, 1, True),
+        ([Config(l, s, 'S') for l in langs for s in (z, (1, 1, 1, 1))], [('prng', 3), ('prng', 4)], 1, 8, False),
+        ([Config(l, z, 'M') for l in langs], [('prng', 5)], 1, 16, False),
+        ([Config(l, z, lim) for l in langs for lim in ('M', 'D')], [('prng', c) for c in range(1, 13)], 0, 1, False),
     ]
 
 
@@ -316,7 +316,7 @@ def run(tier, seed, jobs):
     stats = {}
     samples = []
     plans = []
-    cap = 400 if tier == 'quick' else 6000
+    cap = 400 if tier == 'quick' else 1500
     for configs, policies, bound, nslices, full in plan(tier):
         params = {'full_expansion': full, 'leaf_cap': cap}
         tot = explore.explore(configs, policies, bound, SPEC, params, jobs, seed, nslices)
